@@ -15,13 +15,19 @@ class Disconnection:
     if not self.is_connected():
       raise gfapy.RuntimeError(
         "Line {} is not connected to a GFA instance".format(self))
-    self._remove_field_backreferences()
-    self._remove_field_references()
-    self._disconnect_dependent_lines()
-    self._remove_nonfield_backreferences()
-    self._remove_nonfield_references()
-    self._gfa._unregister_line(self)
-    self._gfa = None
+    referenced = self._referenced_lines()
+    self.__dict__["_disconnecting"] = True
+    try:
+      self._remove_field_backreferences()
+      self._remove_field_references()
+      self._disconnect_dependent_lines()
+      self._remove_nonfield_backreferences()
+      self._remove_nonfield_references()
+      self._gfa._unregister_line(self)
+      self._gfa = None
+    finally:
+      self.__dict__["_disconnecting"] = False
+    self._disconnect_unreferenced_placeholders(referenced)
 
   def _delete_reference(self, line, key):
     if key not in self._refs: return
